@@ -651,6 +651,7 @@ fn vis_str(tcx: TyCtxt<'_>, did: DefId) -> String {
 fn const_value_j<'tcx>(tcx: TyCtxt<'tcx>, did: DefId) -> J {
     // Evaluated value of a const/static whose type is an integer or an array of integers.
     let t = tcx.type_of(did).instantiate_identity().skip_norm_wip();
+    let is_array = matches!(t.kind(), ty::Array(..));
     let (elem, count): (Ty<'tcx>, Option<u64>) = match t.kind() {
         ty::Array(e, n) => (*e, n.try_to_target_usize(tcx)),
         _ => (t, None),
@@ -697,15 +698,17 @@ fn const_value_j<'tcx>(tcx: TyCtxt<'tcx>, did: DefId) -> J {
             }
         }
         Ok(ConstValue::Indirect { alloc_id, offset }) => {
-            let total = match count {
-                Some(n) => n * esize,
-                None => esize,
-            } as usize;
             let alloc = tcx.global_alloc(alloc_id).unwrap_memory();
             let off = offset.bytes() as usize;
+            // an array whose length is an unevaluated expression (`[u64; WORD_BITS + 1]`): the allocation is the whole value
+            let total = match count {
+                Some(n) => (n * esize) as usize,
+                None if is_array => alloc.inner().len().saturating_sub(off),
+                None => esize as usize,
+            };
             let bytes = alloc.inner().inspect_with_uninit_and_ptr_outside_interpreter(off..off + total);
             let v = read(bytes);
-            if count.is_some() {
+            if is_array {
                 J::Arr(v)
             } else {
                 v.into_iter().next().unwrap_or(J::Null)
